@@ -137,6 +137,25 @@ Theorem parser_reloc_raw_ranges : forall (be dbg : bool) (fuel : nat) (asz : N) 
             (run_plain_rd be dbg (p_raw_ranges fuel asz []) (mkRd base (apply_rrels be R bs))).
 Proof. exact parser_reloc_raw_ranges_lemma. Qed.
 
+(* the same with a STATIC side condition, as the design states it ("relocs within the relocatable
+   fields"): in a .debug_ranges/.debug_loc pair list every field is a relocatable address field, so ANY
+   set of explicit-addend (RELA) relocations of the address width at multiples of it, with addends that
+   fit, is transparent — for every byte string, whatever it parses to *)
+Theorem parser_reloc_raw_ranges_static :
+  forall (be dbg : bool) (fuel : nat) (asz : N) (R : list rrel) (bs : list byte) (base : N),
+  valid_asz asz -> sites_disjointb R = true ->
+  (forall r, In r R -> rr_w r = asz /\ rr_pos r mod asz = 0 /\ rr_impl r = false /\ rr_add r < 2 ^ (8 * asz)) ->
+  out_reloc (snd (run_reloc_rd be dbg (map_relocator R) (p_raw_ranges fuel asz []) (rrd_new (mkRd base bs)))) =
+  out_plain (mkRd base (apply_rrels be R bs))
+            (run_plain_rd be dbg (p_raw_ranges fuel asz []) (mkRd base (apply_rrels be R bs))).
+Proof. exact parser_reloc_raw_ranges_static_lemma. Qed.
+
+Example ex_static_hyps :
+  let R := [mkRrel 0 4 false 4112; mkRrel 4 4 false 4128; mkRrel 12 4 false 8192] in
+  valid_asz 4 /\ sites_disjointb R = true /\
+  forallb (fun r => (rr_w r =? 4) && (rr_pos r mod 4 =? 0) && negb (rr_impl r) && (rr_add r <? 2 ^ 32)) R = true.
+Proof. vm_compute. repeat split; auto. Qed.
+
 (* a DWARF 4 unit header whose debug_abbrev_offset (offset 6, 4 bytes) carries an implicit-addend
    relocation: the hypotheses hold and both runs see abbrev offset 0x1000 + 0x34 *)
 Definition ex_hdr : list byte :=
